@@ -103,7 +103,7 @@ Fixpoint cbc_dec_blocks (D : bytes -> bytes) (prev : bytes) (bl : list bytes) : 
 Definition pkcs_pad (bs : nat) (p : bytes) : bytes :=
   let n := (bs - (length p mod bs))%nat in p ++ repeat (n2b (N.of_nat n)) n.
 Definition pkcs_unpad (bs : nat) (p : bytes) : option bytes :=
-  match List.rev p with
+  match rev_append p [] with     (* = rev p, linear: the last byte first *)
   | [] => None
   | l :: _ =>
       let n := N.to_nat (b2n l) in
@@ -426,10 +426,11 @@ Definition dec_unpack_inner (m : msg) (inner : bytes) : msg + msg :=   (* inl = 
       match take32 r9 with None => bad_cred m "Truncated data length" | Some (dl, r10) =>
       let m := m <| m_data_len := dl |> in
       if 0 <? dl then
-        match take (N.to_nat dl) r10 with
-        | None => bad_cred m "Truncated data"
-        | Some (d, _) => inr (m <| m_data := d |>)
-        end
+        if len r10 <? dl then bad_cred m "Truncated data"     (* compared in N: dl may be 2^32-1 *)
+        else match take (N.to_nat dl) r10 with
+             | None => bad_cred m "Truncated data"
+             | Some (d, _) => inr (m <| m_data := d |>)
+             end
       else inr (m <| m_data := [] |>)
       end end end end end end end
     end
